@@ -23,4 +23,20 @@ inductive Op where
                                                 -- GetId, a message routed to a peer): must not touch the name table
   deriving DecidableEq, Repr
 
+/-- A destination name as the bus reads it in `msg.destination` / the argument of GetNameOwner
+(set and non-empty; the empty string and the bus's own name are handled before the lookup, C14). -/
+inductive Dest where
+  | unique (k : Conn)      -- the string ":1.k" exactly as `':1.%d' % k` writes it
+  | foreign                -- any other string that starts with ':' (":1.01", ":2.1", ":1.1a"): never handed out
+  | wellKnown (n : Name)   -- a string that does not start with ':'
+  deriving DecidableEq, Repr
+
+/-- One step of a history in which the name operations are interleaved with what the ROUTER does
+with the table (extension 2026-09-30, seam with property C14). -/
+inductive HStep where
+  | op (o : Op)                  -- a name operation / connect / disconnect / other traffic
+  | send (c : Conn) (d : Dest)   -- c sends a message addressed to d (not to the bus): `Bus.sendMessage` resolves d
+  | ask (c : Conn) (d : Dest)    -- GetNameOwner(d) sent by c, for ANY name (unique names included)
+  deriving DecidableEq, Repr
+
 end Txdbus.Bus
